@@ -11,21 +11,21 @@ same programs and inputs (model <-> implementation <-> reference).
 from harness import common, l2common, scenarios
 
 PID = "C01"
-TRANSLATORS = ["T-jumpi", "T-consts", "T-branchpts", "T-assertbranch", "T-dispatch"]
+TRANSLATORS = ["T-jumpi", "T-consts", "T-branchpts", "T-assertbranch", "T-dispatch", "T-create2"]
 
 PLAN_QUICK = [("straight", 14), ("branch", 14), ("memory", 10), ("storage", 10), ("hash", 10), ("log", 6), ("loop", 14), ("call", 12), ("create", 14),
-              ("opgrid", 32), ("callfail", 22), ("symtarget", 12), ("valuecall", 12), ("corr", 16), ("symloop", 12), ("stackops", 12), ("hashcond", 8), ("symstore", 12)]
+              ("opgrid", 32), ("callfail", 22), ("symtarget", 12), ("valuecall", 12), ("corr", 16), ("symloop", 12), ("stackops", 12), ("hashcond", 8), ("symstore", 12), ("create2", 12)]
 PLAN_THOROUGH = [("straight", 150), ("branch", 200), ("memory", 120), ("storage", 150), ("hash", 150), ("log", 60), ("loop", 80), ("call", 200), ("create", 100),
-                 ("opgrid", 600), ("callfail", 300), ("symtarget", 150), ("valuecall", 150), ("corr", 150), ("symloop", 150), ("stackops", 150), ("hashcond", 100), ("symstore", 150)]
+                 ("opgrid", 600), ("callfail", 300), ("symtarget", 150), ("valuecall", 150), ("corr", 150), ("symloop", 150), ("stackops", 150), ("hashcond", 100), ("symstore", 150), ("create2", 150)]
 
 ASSUMPTIONS = [
     "standard interpretation of keccak (real Keccak-256) and exact definitions of the f_evm_* abstractions when evaluating halmos' terms",
-    "documented modelling conventions shared by reference and halmos: no gas (memory beyond MAX_MEMORY_SIZE is out-of-gas), CREATE addresses from halmos' counter scheme, balances <= 2^128, hash injectivity witnesses (f_inv_sha3_*) taken as satisfiable",
+    "documented modelling conventions shared by reference and halmos: no gas (memory beyond MAX_MEMORY_SIZE is out-of-gas), CREATE addresses from halmos' counter scheme, CREATE2 addresses under halmos' names (0xBBBB0000 + k; the EVM address behind each name is recomputed by the tie from the path's own preimage with the real Keccak-256), balances <= 2^128, hash injectivity witnesses (f_inv_sha3_*) taken as satisfiable",
     "the reference interpreter Spec/Evm.v is my reading of the Yellow Paper / execution-specs for the supported subset (no second EVM implementation exists in the sandbox)",
 ]
 PARTIAL = ("The Coq theorems cover the exploration skeleton of the mini-SEVM (local instructions, JUMPI branching, CALL / CALLCODE / DELEGATECALL / STATICCALL / CREATE over a symbolic world, "
            "insufficient-funds fork), the other branch points taken one at a time (aliases, symbolic JUMP, vm.assert*, vm.addr) and the dispatch table; "
-           "term building itself is C06, byte sequences C07, storage decoding C08; logs, copies, MSIZE, EXT*, CREATE2, precompiles, cheatcode addresses and the composition of a symbolic call target "
+           "term building itself is C06, byte sequences C07, storage decoding C08; logs, copies, MSIZE, EXT*, CREATE2 (only its address layout is under a theorem: T-create2 / C01_create2_address_tied), precompiles, cheatcode addresses and the composition of a symbolic call target "
            "with the call machinery are covered by the correspondence run only.")
 
 
@@ -35,6 +35,12 @@ def sig_of(desc, fail):
     sig = {"what": fail.get("what", ""), "features": ",".join(feats), "halmos": str(fail.get("halmos"))[:40], "reference": str(fail.get("reference"))[:40]}
     if 0xF2 in code:
         sig["features"] += ",CALLCODE"
+    sig["profile"] = str(desc.get("profile", ""))
+    # recorded finding C01-create2-placeholder-address: only on the corpus entries written to exhibit it, only when the
+    # difference is in the published data and halmos' side shows a CREATE2 name (0xBBBB0000 + k) where the reference has
+    # the hash / the 0 of an address collision.  Any other CREATE2 difference stays a violation.
+    if "known-create2-placeholder-" in sig["profile"] and fail.get("what") == "return data" and "bbbb000" in str(fail.get("halmos")):
+        sig["observable"] = "create2-placeholder"
     if "path_kinds" in fail:      # C02 direction: an input covered by no reported path
         sig["what"] = "uncovered"
         sig["symbolic_jump"] = bool(desc.get("options", {}).get("symbolic_jump"))
@@ -111,13 +117,13 @@ def run(rep, tier):
         rep.obligation("extracted reference interpreter / model drivers build", False, str(e)[-600:])
         rep.fail("broken-tie", f"extracted drivers do not build: {str(e)[-400:]}", case={})
     return rep.finish(
-        checker_cmd="make -C coq Props/C01.vo (coqc 8.16.1) after regenerating coq/Gen/GenJumpi.v, GenConsts.v from /repo/src/halmos/sevm.py, constants.py",
+        checker_cmd="make -C coq Props/C01.vo (coqc 8.16.1) after regenerating coq/Gen/GenJumpi.v, GenConsts.v, GenCreate2.v, ... from /repo/src/halmos/sevm.py, constants.py",
         trusted_base=common.TRUSTED_BASE_COMMON,
         assumptions=ASSUMPTIONS,
         partial=PARTIAL,
         rule="cases = the regression corpus (one hand-written program per mechanism a seeded change or a repaired defect needed) followed by assembled programs from a grammar (profiles: straight-line arithmetic, "
              "operation grids over boundary / dirty / Bool-typed operands, branching, correlated branches, memory, storage, hashing incl. array-overflow conditions, logs, loops with concrete and input-dependent observable trip counts, "
-             "stack shuffles, calls into a pool of callees with several failing paths, value-bearing and self calls, symbolic call targets, creations with constructors that read their context or revert with data) "
+             "stack shuffles, calls into a pool of callees with several failing paths, value-bearing and self calls, symbolic call targets, creations with constructors that read their context or revert with data, CREATE2 of concrete init code and of constructors followed by symbolic constructor arguments (jumping / branching constructors, collisions, value, callees, static frames)) "
              "run through the real SEVM with symbolic inputs; per program: concrete inputs = z3 models of every reported path + perturbations to boundary values + dictionary values (PUSH immediates, existing addresses clean and dirty) + "
              "hash-relative values + random; every (path, input) pair whose constraints hold is compared with the reference interpreter (end kind, return data, storage read back through halmos' own sload for every written location spelling, "
              "balances, code, event logs); inputs violating a documented assumption (total balance > 2^128, a keccak-based storage location wrapping around 2^256) are left out. A case is non-trivial when it has >1 path or at least one "
